@@ -61,6 +61,10 @@ M = [
      "            self._in_use = in_use and f.is_declared_rand and f.rand_mode", "            self._in_use = in_use", ["C17"]),
     ("foreach_condition_uses_last_mask_element", "src/vsc/visitors/x_expr_evaluator.py",
      "                if idx >= 0 and idx < len(field.field_l):\n                    field.field_l[idx].accept(self)", "                if True:\n                    field.accept(self)", ["C04"]),
+    ("copy_drops_partselect", "src/vsc/visitors/constraint_copy_builder.py",
+     "    def visit_expr_partselect(self, e):\n        if self.do_copy_level > 0:", "    def visit_expr_partselect(self, e):\n        if False:", ["C04"]),
+    ("copy_unique_shares_terms", "src/vsc/visitors/constraint_copy_builder.py",
+     "            self.constraints.append(ConstraintUniqueModel(\n                [self.expr(e) for e in c.unique_l]))", "            self.constraints.append(c.clone())", ["C04"]),
     ("ult_to_slt", "src/vsc/model/expr_bin_model.py",
      "ret = btor.Ult(lhs_n, rhs_n)", "ret = btor.Slt(lhs_n, rhs_n)", ["C01"]),
     ("uext_to_sext", "src/vsc/model/expr_bin_model.py",
